@@ -246,12 +246,14 @@ PROPS = {
     "C12": {
         "quick": [
             {"harness": "H_C12_q", "cases": list(range(12)), "scale": SC, "chunk": 1},
+            {"harness": "H_C12_recovered", "scale": SC},
         ],
         "thorough": [
+            {"harness": "H_C12_recovered", "scale": SC},
             {"harness": "H_C12_t", "cases": list(range(36)), "scale": SC, "chunk": 3},
             {"harness": "H_C12_t3", "cases": list(range(12)), "scale": SC, "chunk": 1, "maxsec": 3300},
         ],
-        "covers": {"quick": ["C12.done", "C12.writer-ran-during-backup"]},
+        "covers": {"quick": ["C12.done", "C12.writer-ran-during-backup", "C12r.done"]},
         "bounds": {"quick": "3 keys, 2 prefix shapes (2-3 segments, last one active, with and without room left), 1 hash-layout shape (thorough: 3 prefixes x 2 layouts); thread T1 = Backup, thread T2 = 2 symbolic Put/Delete (rolling the log over during the backup); schedule symbolic at lock acquisitions and at the points where Backup holds no lock (before the size capture, before each segment copy, before the lock file is created); the copy is opened (recovery) and must equal the reference after a prefix of T2's operations between those acknowledged before the call and those started before the return",
                    "thorough": "3 writer operations"},
         "assumptions": COMMON_ASSUME + ["threads as C05; Backup's file copy is one atomic step per segment (io.Copy/CopyN executed from stdlib SSA, segments smaller than the 32 KiB copy buffer)"],
@@ -278,11 +280,12 @@ PROPS = {
         "quick": [
             {"harness": "H_C10_race", "cases": list(range(13)), "scale": SC, "chunk": 1, "replay": False},
             {"harness": "H_C10_closed", "cases": list(range(13)), "scale": SC, "chunk": 13},
+            {"harness": "H_C10_worker", "cases": [0, 1, 2], "scale": SC, "chunk": 1, "replay": False},
         ],
-        "covers": {"quick": ["C10.done", "C10.close-raced", "C10c.done"]},
-        "bounds": {"quick": "every ordered pair of public methods (Put, Delete, Get, GetAppend, Has, Count, Items/Next, Sync, Compact, FileSize, Metrics, Backup, Close) run by two threads on disjoint keys, schedule symbolic at lock acquisitions; lockset monitor (per heap cell allocated by pogreb code: a write and another access from different threads with no common lock is a violation); implicit no-panic / no-deadlock obligations; Close racing: the other operation fails or its effect is in the reopened database; every public method once on a closed database"},
+        "covers": {"quick": ["C10.done", "C10.close-raced", "C10c.done", "C10w.done"]},
+        "bounds": {"quick": "every ordered pair of public methods (Put, Delete, Get, GetAppend, Has, Count, Items/Next, Sync, Compact, FileSize, Metrics, Backup, Close) run by two threads on disjoint keys, schedule symbolic at lock acquisitions; lockset monitor (per heap cell allocated by pogreb code: a write and another access from different threads with no common lock is a violation); implicit no-panic / no-deadlock obligations; Close racing: the other operation fails or its effect is in the reopened database; every public method once on a closed database; background worker (context/ticker/select modelled, one tick of either kind at any scheduling point) alongside 3 writes and Close: same results, no goroutine of the database left after Close"},
         "assumptions": COMMON_ASSUME + ["the lockset discipline is a sufficient condition checked on every explored path, not the Go race detector's verdict; happens-before through channels/WaitGroup is not modelled"],
-        "outside": "the Go runtime's own race detection and memory model, real SIGSEGV/SIGBUS on unmapped memory, goroutine leaks and the ticker-driven background worker (time/context/select not modelled: all harnesses use interval 0), races inside a user-supplied FileSystem (fs.Mem's own map is not monitored), more than 2 threads",
+        "outside": "the Go runtime's own race detection and memory model, real SIGSEGV/SIGBUS on unmapped memory, more than one tick of the background worker per run (ticker modelled as: may fire at any scheduling point while the budget lasts), races inside a user-supplied FileSystem (fs.Mem's own map is not monitored), more than 2 threads",
     },
     "C13": {
         "quick": [
